@@ -7,6 +7,8 @@ Contract on the REAL `data_algebra.cdata.RecordMap.transform / inverse / compose
       (inverse, rows first)    R = the row-record form of T:  m.transform(m.inverse().transform(R)) == R
       (general map)            g = RecordMap(blocks_in=S, blocks_out=S2):  g.inverse().transform(g.transform(T)) == T
       (compose)                m2.compose(m1).transform(X) == m2.transform(m1.transform(X)),  also for  m1 >> m2
+      (row order)              the blocks->rows round trips also for the block table with its rows permuted
+                               (all permutations for <= 4 rows, a deterministic spread of 6 otherwise)
       (back ends)              every transform above gives the same table on a Pandas frame and on a Polars frame
     tables compared as: same column set, same multiset of rows.
 """
@@ -116,13 +118,15 @@ def gen_row_tables(rs, tier: str) -> List[Dict[str, Any]]:
                     assigns.append((kind, [vals[0]] * ncell))  # all equal
                     assigns.append((kind, [None] * ncell))
                     assigns.append((kind, [vals[(i * 5) % len(vals)] for i in range(ncell)]))
-        for kind, cells in assigns:
+        for ai, (kind, cells) in enumerate(assigns):
             rows = []
             for i, rid in enumerate(ids):
                 rows.append(tuple(rid) + tuple(cells[i * len(ckeys) : (i + 1) * len(ckeys)]))
-            out.append({"cols": list(rs["record_keys"]) + ckeys, "rows": rows, "kind": kind})
+            # the general-map / composition battery does not depend on the cell values: at quick it is run for the
+            # first two value assignments of every record-id pattern, the inverse / permutation / agreement checks for all
+            out.append({"cols": list(rs["record_keys"]) + ckeys, "rows": rows, "kind": kind, "battery": "full" if (tier != "quick" or ai < 2) else "core"})
     # the empty table
-    out.append({"cols": list(rs["record_keys"]) + ckeys, "rows": [], "kind": "float"})
+    out.append({"cols": list(rs["record_keys"]) + ckeys, "rows": [], "kind": "float", "battery": "full"})
     return out
 
 
@@ -169,6 +173,29 @@ def run(fn):
         if type(e).__name__ == "PanicException":
             return ("raise", type(e).__name__, str(e)[:200])
         raise
+
+
+def row_permutations(n: int, nr: int) -> List[List[int]]:
+    """row orders of a block table with n rows (record-major, nr rows per record) other than the identity"""
+    import random
+
+    ident = list(range(n))
+    if n <= 1:
+        return []
+    if n <= 4:
+        return [list(p) for p in itertools.permutations(ident) if list(p) != ident]
+    out = [ident[::-1], ident[1:] + ident[:1]]
+    out.append(sorted(ident, key=lambda i: (i % nr, i // nr)))  # control-key major
+    out.append(sorted(ident, key=lambda i: (i % nr, (i // nr) if (i % nr) % 2 == 0 else -(i // nr))))  # alternating record direction
+    for sd in (1, 2):
+        q = list(ident)
+        random.Random(n * 101 + sd).shuffle(q)
+        out.append(q)
+    uniq = []
+    for q in out:
+        if q != ident and q not in uniq:
+            uniq.append(q)
+    return uniq
 
 
 # --------------------------------------------------------------------------------------------------
@@ -220,7 +247,7 @@ def eval_case(rs, rt) -> Dict[str, Any]:
         else:
             res["fails"].append(["inverse:rows->blocks->rows", be, "raise", "%s: %s" % (r2[1], r2[2])])
         # general maps and composition
-        for lname, rs2 in layouts:
+        for lname, rs2 in (layouts if rt.get("battery", "full") == "full" else []):
             S2 = O.record_spec(rs2)
             g = cd.RecordMap(blocks_in=S, blocks_out=S2)
             r3 = run(lambda: g.transform(fT))
@@ -258,7 +285,7 @@ def eval_case(rs, rt) -> Dict[str, Any]:
                     c, r = C.canon_rows(seq2[1])
                     check_eq("compose:>>[%s-then-rows]" % lname, be, got2, c, r)
         # rows first:  (rows -> S)  then  (S -> S2)
-        for lname, rs2 in layouts:
+        for lname, rs2 in (layouts if rt.get("battery", "full") == "full" else []):
             gB = cd.RecordMap(blocks_in=S, blocks_out=O.record_spec(rs2))
             seq3 = run(lambda: gB.transform(to_blocks.transform(fR)))
             comp3 = run(lambda: to_blocks >> gB)
@@ -270,6 +297,30 @@ def eval_case(rs, rt) -> Dict[str, Any]:
                 if seq3[0] == "ok":
                     c, r = C.canon_rows(seq3[1])
                     check_eq("compose:>>[rows-to-blocks-then-%s]" % lname, be, got3, c, r)
+    # the same block table with its rows in other orders: all permutations for <= 4 rows, a deterministic spread
+    # otherwise (reversed, rotated, control-key major, control-key major with alternating record direction, shuffles)
+    perms = row_permutations(len(T[1]), len(next(iter(rs["control"].values()))))
+    if perms:
+        g_long = cd.RecordMap(blocks_in=S, blocks_out=O.record_spec(layouts[0][1]))
+        for be in ("pandas", "polars"):
+            for pi, perm in enumerate(perms):
+                fP = frame(be, T[0], [T[1][i] for i in perm], sch_T)
+                rp = run(lambda: to_rows.transform(fP))
+                results[("to_rows:permutation#%d" % pi, be)] = rp
+                if rp[0] == "ok":
+                    back = run(lambda: to_blocks.transform(rp[1]))
+                    check_eq("inverse:permuted-blocks->rows->blocks", be, back, T[0], T[1])
+                else:
+                    res["fails"].append(["inverse:permuted-blocks->rows->blocks", be, "raise", "%s: %s" % (rp[1], rp[2])])
+                if pi < 2:
+                    rg = run(lambda: g_long.transform(fP))
+                    results[("general:long:permutation#%d" % pi, be)] = rg
+                    if rg[0] == "ok":
+                        back = run(lambda: g_long.inverse().transform(rg[1]))
+                        check_eq("inverse:general[long]:permuted-blocks", be, back, T[0], T[1])
+                    else:
+                        res["fails"].append(["inverse:general[long]:permuted-blocks", be, "raise", "%s: %s" % (rg[1], rg[2])])
+        res["permutations"] = len(perms)
     # Pandas and Polars agree
     for tag in sorted(set(k[0] for k in results)):
         a, b = results[(tag, "pandas")], results[(tag, "polars")]
@@ -302,7 +353,7 @@ def classify(rs, rt, res) -> Dict[str, List[str]]:
         if st is not None:
             keys.setdefault("%s:%s:%s" % (PID, st[0], st[1]), []).append(msg)
         else:
-            keys.setdefault("%s:unclassified:%s" % (PID, O.uhash([tag.split("[")[0], be, kind, det.split(":")[0] if kind == "raise" else "", nrec == 0, has_null, len(rs["record_keys"])])), []).append(msg)
+            keys.setdefault("%s:unclassified:%s" % (PID, O.uhash([tag.split("[")[0].split("#")[0], be, kind, det.split(":")[0] if kind == "raise" else "", nrec == 0, has_null, len(rs["record_keys"])])), []).append(msg)
     return keys
 
 
